@@ -897,6 +897,31 @@ def cross(tier):
     out["c06"] += [T("x_an_sum_of_filter", analytic("sum", filter_("DS_4", gt0), partition_by=["Id_1"]), 3),
                    T("x_an_max_of_binop", analytic("max", binop("+", "DS_4", "DS_5"), partition_by=["Id_1"]), 3),
                    T("x_an_count_of_union", analytic("count", setop("union", ["DS_4", "DS_5"]), partition_by=["Id_1"]), 3)]
+    # expressions as operands of aggregates / analytic functions inside clauses, memberships, case, ds-ds nvl
+    def aggr_expr(ds, name, aop, expr, gop, g, hv=None):
+        from vtlengine.Model import Role
+        import vtlengine.AST as A_
+        left = comp_(name)
+        left.role = Role.MEASURE
+        P_ = dict(line_start=1, column_start=1, line_stop=1, column_stop=1)
+        return clause_("aggr", ds, [A_.Assignment(left=left, op=":=", right=agg(aop, expr, gop, g, hv), **P_)])
+    from vt.astb import comp as comp_, clause as clause_
+    out["c03"] += [T("x_aggr_sum_of_product", aggr_expr("DS_1", "Me_9", "sum", binop("*", "Me_1", "Me_2"), "group by", ["Id_1"]), 3),
+                   T("x_aggr_max_of_abs", aggr_expr("DS_1", "Me_9", "max", unop("abs", "Me_1"), "group except", ["Id_1"]), 3),
+                   T("x_having_two_aggs", agg("sum", "DS_4", "group by", ["Id_1"], having(binop(">", agg("avg", "Me_1"), agg("min", "Me_1")))), 3),
+                   T("x_having_and", agg("max", "DS_4", "group by", ["Id_1"], having(binop("and", binop(">", agg("count"), 1), binop(">", agg("sum", "Me_1"), 0)))), 3)]
+    out["c06"] += [T("x_calc_an_sum_of_sum", calc("DS_1", [("measure", "Me_9", analytic("sum", binop("+", "Me_1", "Me_2"), partition_by=["Id_1"]))]), 3),
+                   T("x_calc_an_plus_comp", calc("DS_4", [("measure", "Me_9", binop("+", analytic("max", "Me_1", partition_by=["Id_1"]), "Me_1"))]), 3),
+                   T("x_calc_two_analytics", calc("DS_4", [("measure", "Me_8", analytic("min", "Me_1", partition_by=["Id_1"])), ("measure", "Me_9", analytic("count", "Me_1", partition_by=["Id_2"]))]), 3)]
+    out["c01"] += [T("x_membership_plus", binop("+", member("DS_1", "Me_1"), member("DS_2", "Me_1")), n),
+                   T("x_membership_of_id", member("DS_1", "Id_2"), n),
+                   T("x_nvl_ds_ds", binop("nvl", "DS_4", "DS_5"), n),
+                   T("x_case_three", case([(binop(">", "DS_4", 5), "DS_4"), (binop("<", "DS_4", 0), "DS_5")], "DS_4"), n),
+                   T("x_between_ds_bounds", between("DS_4", 0, 5), n),
+                   T("x_not_in_ds", in_("DS_4", [1, 2], neg=True), n)]
+    out["c02"] += [T("x_calc_attribute_then_keep", keep(calc("DS_1", [("attribute", "At_9", binop("||", "Id_2", const("x")))]), ["Me_1"]), n),
+                   T("x_sub_two_ids", sub("DS_7", [("Id_2", "a"), ("Id_3", 1)]), n),
+                   T("x_keep_then_rename_then_calc", calc(rename(keep("DS_1", ["Me_1"]), [("Me_1", "Me_7")]), [(None, "Me_9", binop("*", "Me_7", 2))]), n)]
     # validation over other families
     out["c07"] += [T("x_check_of_binop_cmp", check(binop(">", binop("+", "DS_4", "DS_5"), 0), error_code="E1", error_level=2), n, structs=POOL),
                    T("x_check_of_agg_cmp", check(binop(">", s4(), 0), invalid=True), 3, structs=POOL),
